@@ -1,7 +1,9 @@
 import AldorVerif.Model.SrcPos
+import AldorVerif.Model.ComsgReport
 /-! line protocol for the `srcpos` module (driver side; not part of the model) -/
 namespace AldorVerif.Driver.SrcPos
 open AldorVerif.SrcPos
+open AldorVerif.ComsgReport
 
 def hex (n : Nat) : String := String.ofList (Nat.toDigits 16 n)
 def hx (b : BitVec 64) : String := hex b.toNat
@@ -126,6 +128,64 @@ def includer (toks : List String) : String :=
     | none => "bad-op"
   | _ => "bad-op"
 
+structure ErrReq where
+  mark : Nat
+  d : Int
+  id : String
+  prio : Int
+
+/-- events plus the `err <d> <id> <prio>` requests, each tied to the source line made last -/
+partial def parseR (toks : List String) (nmark : Nat) : Option (List Ev × List ErrReq) :=
+  match toks with
+  | [] => some ([], [])
+  | "line" :: r => (parseR r (nmark + 1)).map (fun (e, q) => (.line :: e, q))
+  | "ifz" :: r => (parseR r (nmark + 1)).map (fun (e, q) => (.line :: e, q))
+  | "endif" :: r => (parseR r (nmark + 1)).map (fun (e, q) => (.line :: e, q))
+  | "lines" :: n :: r => do
+      let k ← n.toNat?
+      let (e, q) ← parseR r (nmark + k)
+      pure (List.replicate k .line ++ e, q)
+  | "skip" :: r => (parseR r nmark).map (fun (e, q) => (.skip :: e, q))
+  | "hl" :: n :: f :: r => do
+      let k ← n.toInt?
+      let (e, q) ← parseR r nmark
+      pure (.hashLine k (if f == "-" then none else some f) :: e, q)
+  | "inc" :: f :: r => (parseR r (nmark + 1)).map (fun (e, q) => (.incl f :: e, q))
+  | "close" :: r => (parseR r nmark).map (fun (e, q) => (.close :: e, q))
+  | "err" :: d :: id :: p :: r => do
+      let dd ← d.toInt?
+      let pp ← p.toInt?
+      let (e, q) ← parseR r nmark
+      pure (e, if nmark > 0 then ⟨nmark - 1, dd, id, pp⟩ :: q else q)
+  | _ => none
+
+def reporter (toks : List String) : String :=
+  match toks with
+  | "open" :: f :: r =>
+    match parseR r 0 with
+    | some (evs, errs) =>
+      let s := run (start f) evs
+      let marks := s.marks.reverse.toArray
+      let sorted := errs.mergeSort (fun a b => a.prio ≤ b.prio)     -- stable
+      -- comsgError in that order: `messages` is consed, newest first
+      let msgs : List CoMsg := sorted.foldl (fun acc e =>
+        match marks[e.mark]? with
+        | some m => ⟨sposOffset m.pos e.d, acc.length + 1, "m" ++ e.id⟩ :: acc
+        | none => acc) []
+      let rep := reportFile true msgs
+      let showG (g : Group) : String :=
+        "H:" ++ fnm (sposFile s.table g.first) ++ ":" ++ dec (sposLine s.table g.first) ++ " " ++
+        String.join (g.shown.map (fun e => "M:" ++ dec (sposLine s.table e.pos) ++ ":" ++ dec (sposChar e.pos) ++ ":"
+          ++ toString e.serial ++ ":" ++ e.text ++ " "))
+      let nshown := (rep.map (·.shown.length)).foldl (· + ·) 0
+      let dropped := msgs.length - nshown
+      String.join (rep.map showG) ++ "n=" ++ toString nshown
+        ++ "\tgroups=" ++ toString rep.length ++ (if dropped > 0 then " dup-dropped" else " no-dup")
+        ++ (if rep.any (fun g => g.all.length > 1) then " multi" else " single")
+        ++ (if s.stale then " stale=1" else "")
+    | none => "bad-op"
+  | _ => "bad-op"
+
 /-- one request line → `result<TAB>tags` -/
 def line (toks : List String) : String :=
   match toks with
@@ -157,6 +217,7 @@ def line (toks : List String) : String :=
     | _, _ => "bad-op"
   | "H" :: r => history r
   | "I" :: r => includer r
+  | "R" :: r => reporter r
   | _ => "bad-op"
 
 end AldorVerif.Driver.SrcPos
